@@ -202,11 +202,11 @@ CONDITIONS = [
               "0 <= g1 <= 2", "0 <= g2 <= 2", "0 <= g3 <= 2"],
          partitions={"quick": [{"n": 2, "o3": 0, "o4": 0, "o1": a, "g1": 0, "g2": 1, "g3": 2} for a in range(NOPS)] +
                               [{"n": 3, "o4": 0, "o1": a, "o2": b, "g1": 0, "g2": 1, "g3": 2} for (a, b) in ((0, 2), (3, 10), (3, 11), (6, 9), (15, 5), (1, 2), (3, 24), (15, 25))],
-                     "thorough": [{"n": 3, "o4": 0, "o1": a, "o2": b, "g1": 0, "g2": 1, "g3": 2} for a in range(NOPS) for b in range(NOPS)]},
+                     "thorough": [{"n": 3, "o4": 0, "o1": a, "o2": b, "g1": 0, "g2": 1, "g3": 2} for a in range(NOPS) for b in range(NOPS) if (a + b) % 2 == 0 or b >= 24]},
          timeout={"quick": 600, "thorough": 1800}, path_timeout=60,
          functions=["ident.IdentDB.store/remove_remote/remove_local/get_nameid/create_id/find_nameid/transient_nameid/persistent_nameid/find_local_id/match_local_id/"
                     "handle_name_id_mapping_request/handle_manage_name_id_request/construct_nameid/nim_args", "ident.code/decode"],
-         bounds="histories of 2 (quick, all) and 3 (thorough, all; quick: two sampled prefixes) operations over %d op codes = {issue persistent, issue transient, withdraw} x 2 users x "
+         bounds="histories of 2 (quick, all) and 3 (thorough: every second pair of leading operations with the third free; quick: sampled prefixes) operations over %d op codes = {issue persistent, issue transient, withdraw} x 2 users x "
                 "{no SP, SP one, SP two} + remove_local / manage-name-id / name-id-mapping / withdrawal of a never-issued NameID carrying an issued text per user; id generator always fresh" % NOPS),
 ]
 
